@@ -384,10 +384,24 @@ def _result_lists_as_loops(fn):
     return fn
 
 
+def _renorm_method(pkg) -> str:
+    """the name of the method of TemplateLoader that computes the renormalisation content: `_prepare_renorm_content`, or -- when it was
+    renamed -- the one method of the class that is declared to return / returns a RenormContent(..)"""
+    ci = pkg.cls("TemplateLoader")
+    if "_prepare_renorm_content" in ci.methods:
+        return "_prepare_renorm_content"
+    def makes(m):
+        if m.returns is not None and "RenormContent" in ast.unparse(m.returns):
+            return True
+        return any(isinstance(r, ast.Return) and isinstance(r.value, ast.Call) and ast.unparse(r.value.func).split(".")[-1] == "RenormContent" for r in ast.walk(m))
+    names = [n for n, m in ci.methods.items() if makes(m)]
+    return names[0] if len(names) == 1 else "_prepare_renorm_content"
+
+
 def _renorm_flow(pkg):
     """(function, value reconstruction) of TemplateLoader._prepare_renorm_content, spelling differences removed"""
     # helpers the method may have been split into (one matrix entry, one factor, ...) are put back first
-    fn = pkg.expanded("TemplateLoader", "_prepare_renorm_content")
+    fn = pkg.expanded("TemplateLoader", _renorm_method(pkg))
     # with the helpers back in place, loops by position (`for i in range(len(X))` / `range(n)` with n = len(X), reading X[i]) are the
     # enumerate loops they abbreviate
     import copy
